@@ -341,6 +341,12 @@ def run_case(case):
                         continue
                 if fmt in ("lammpstrj", "dtr") and not complete:
                     continue
+                if fmt == "rst7" and complete and t.n_atoms <= 2:
+                    # a one-line coordinate block followed by one more line is ambiguous in the Amber restart format (velocities
+                    # or box); the reader documents a heuristic for it (box if a number is >= 60), so small cells with small angles
+                    # are not representable for two atoms
+                    labels.append("skip-rst7-two-atom-ambiguity")
+                    continue
                 if fmt == "dtr" and n > 1 and not np.all(np.diff(t.time) > 0):
                     labels.append("skip-dtr-times-not-ascending")   # the DTR writer documents and enforces ascending times
                     continue
